@@ -42,6 +42,8 @@ structure Sit where
   errNil : Bool
   errEOF : Bool    -- `err == io.EOF` (then also `errors.Is(err, io.EOF)`)
   pageNil : Bool
+  /-- value / row readers: the count that came with the error is zero -/
+  countZero : Bool := true
   deriving DecidableEq, Repr
 
 /-- atoms of the extracted conditions; anything else is a condition about something else: unknown -/
@@ -54,6 +56,9 @@ def atom (s : Sit) (t : String) : Option Bool :=
   else if t = "isEOF" then some s.errEOF
   else if t = "page==nil" then some s.pageNil
   else if t = "page!=nil" then some (!s.pageNil)
+  else if t = "n==0" then some s.countZero
+  else if t = "n!=0" then some (!s.countZero)
+  else if t = "n>0" then some (!s.countZero)
   else none
 
 def kand : Option Bool → Option Bool → Option Bool
@@ -98,6 +103,7 @@ abbrev Step := List String × String
 inductive Verdict where
   | handsOn      -- the error reaches the caller's caller (returned, wrapped, or sent to the consumer)
   | swallows     -- a branch that does not carry the error is taken, or nothing happens with it
+  | leaves       -- `break` / `continue` / end of the loop body: what happens next is outside the list
   | unresolved   -- a condition about something else decides
   deriving DecidableEq, Repr
 
@@ -109,7 +115,10 @@ def verdict (s : Sit) : List Step → Verdict
   | [] => .swallows
   | (g, o) :: rest =>
     match holds s g with
-    | some true => if carries o then .handsOn else .swallows
+    | some true =>
+      if carries o then .handsOn
+      else if o = "break" || o = "continue" || o = "end" then .leaves
+      else .swallows
     | some false => verdict s rest
     | none => .unresolved
 
